@@ -156,6 +156,20 @@ def run(chk):
         tag = '%d calibration(s) %s, fprecision %d dprecision %d%s' % (c['ncal'], [s.typ + ' %dx%d' % (s.rows, s.cols) for s in c['scs']], c['fp'], c['dp'],
                                                                        ', slot %d deleted' % c['deleted'] if c['deleted'] is not None else '')
         c['tag'] = tag
+        # a frequency precision too small to keep neighbouring frequencies apart: the save at that precision must be refused (EINVAL)
+        # and leave nothing half-done; a file vnacal_load could not read must not be written
+        merged0 = c['fp'] < 17 and any(float('%.*e' % (c['fp'] - 1, a)) >= float('%.*e' % (c['fp'] - 1, b))
+                                       for k_, s_ in enumerate(c['scs']) if k_ != c['deleted'] for a, b in zip(s_.fvec, s_.fvec[1:]))
+        if merged0:
+            i_sv = max(i for i, l in enumerate(c['lines']) if l == 'cal savestr 0')
+            if not o[i_sv].startswith('fail EINVAL'):
+                chk.violation('merged-written', '%s: the frequencies are not distinct at that precision, yet vnacal_save answers %s' % (tag, o[i_sv][:60]), c['lines'][:i_sv + 1])
+            elif any(not x.startswith('ok') for k_, x in enumerate(o) if k_ != i_sv):
+                chk.violation('setup', '%s: a step failed besides the refused save' % tag, c['lines'])
+            else:
+                chk.count('merged_frequencies_refused')
+            c['skip'] = True
+            continue
         if bad:
             chk.violation('setup', '%s: a step failed: `%s` -> %s' % (tag, bad[0][0][:90], bad[0][1][:100]), c['lines'][:c['lines'].index(bad[0][0]) + 1])
             continue
